@@ -250,14 +250,173 @@ theorem C15_domain_sorted (n : Nat) (dom : List Rat) (cont : Bool) (d : List Rat
   subst hd
   exact ⟨rfl, sortDom_sorted dom, sortDom_strict dom⟩
 
-/-- The one-boundary defect (recorded finding C15-single-boundary-indexerror): with a one-value
-    domain the value equal to the boundary raises IndexError — the segmented range of
-    `LegendParametersCategorized([100], [blue, green])` cannot colour the value 100. -/
-theorem C15_single_boundary_counterexample :
-    (ColorRange.make [⟨0, 0, 255⟩, ⟨0, 255, 0⟩] [100] false).bind (·.color 100) = .error .index ∧
-    (ColorRange.make [⟨0, 0, 255⟩, ⟨0, 255, 0⟩] [100] false).bind (·.color 99) = .ok ⟨0, 0, 255⟩ ∧
-    (ColorRange.make [⟨0, 0, 255⟩, ⟨0, 255, 0⟩] [100] false).bind (·.color 101) = .ok ⟨0, 255, 0⟩ := by
+/-- One-boundary domains (documented for `LegendParametersCategorized`; after fix
+    "C15_single_boundary_color" — the pinned code raised IndexError here): the value equal to the
+    single boundary gets the last colour, i.e. the boundary belongs to the upper category, as at
+    every first stop of a segmented range (`C15_segmented`); below / above it clamps. -/
+theorem C15_single_boundary (cols : List RGB) (hcol : cols ≠ []) (d : Rat) (cont : Bool) (v : Rat) :
+    (⟨cols, [d], cont⟩ : ColorRange).color v =
+      if v < d then .ok (cols.head hcol) else .ok (cols.getLast hcol) := by
+  have hc0 : cols[0]? = some (cols.head hcol) := by
+    rw [List.head_eq_getElem]; exact List.getElem?_eq_getElem _
+  have hcl : cols[cols.length - 1]? = some (cols.getLast hcol) := by
+    rw [← List.getLast?_eq_getElem?]; exact List.getLast?_eq_some_getLast hcol
+  unfold ColorRange.color
+  by_cases h1 : v < d
+  · simp [h1, getE, hc0]
+  · by_cases h2 : d < v
+    · simp [h1, h2, getE, hcl]
+    · simp [h1, h2, findInterval, getE, hcl]
+
+/-! ### Weakly increasing domains: duplicated stops (a zero-width interval inside the domain) -/
+
+/-- Every value above the first stop and at most the last stop lies in a half-open interval
+    `(d k, d (k+1)]` of the domain — so `C15_between_weak` (or `C15_segmented_weak`) together with
+    `C15_stop_first_of_equals` for the first stop describe the colour of *every* in-range value of
+    *every* sorted domain, duplicated stops included. -/
+theorem C15_interval_exists (cr : ColorRange) (hd : cr.domain ≠ []) (v : Rat)
+    (h1 : cr.domain.head hd < v) (h2 : v ≤ cr.domain.getLast hd) :
+    ∃ k, ∃ hk : k + 1 < cr.domain.length, cr.domain[k] < v ∧ v ≤ cr.domain[k + 1] := by
+  have h0 : cr.domain[0]? = some (cr.domain.head hd) := by
+    rw [List.head_eq_getElem]; exact List.getElem?_eq_getElem _
+  obtain ⟨k, a, b, ha, hb, hav, hvb⟩ := interval_exists v cr.domain _ _ h0
+    (List.getLast?_eq_some_getLast hd) h1 h2
+  obtain ⟨hk1, rfl⟩ := List.getElem?_eq_some_iff.mp hb
+  obtain ⟨hk0, rfl⟩ := List.getElem?_eq_some_iff.mp ha
+  exact ⟨k, hk1, hav, hvb⟩
+
+/-- Betweenness on weakly increasing domains: a value in `(d k, d (k+1)]` gets exactly the blend of
+    colours `k` and `k + 1` with the factor of that interval (the first-match search cannot stop
+    earlier, zero-width intervals before it included), hence every channel lies between the two
+    stop channels. -/
+theorem C15_between_weak (cr : ColorRange) (hs : cr.domain.Pairwise (· ≤ ·))
+    (hc : cr.continuous = true) (hlen : cr.domain.length ≤ cr.colors.length)
+    (k : Nat) (hk : k + 1 < cr.domain.length) (v : Rat)
+    (hav : cr.domain[k] < v) (hvb : v ≤ cr.domain[k + 1]) :
+    ∃ c, cr.color v = .ok c ∧
+      c = blendRGB (factor cr.domain[k] cr.domain[k + 1] v) cr.colors[k] cr.colors[k + 1] ∧
+      min cr.colors[k].r cr.colors[k + 1].r ≤ c.r ∧ c.r ≤ max cr.colors[k].r cr.colors[k + 1].r ∧
+      min cr.colors[k].g cr.colors[k + 1].g ≤ c.g ∧ c.g ≤ max cr.colors[k].g cr.colors[k + 1].g ∧
+      min cr.colors[k].b cr.colors[k + 1].b ≤ c.b ∧ c.b ≤ max cr.colors[k].b cr.colors[k + 1].b := by
+  have h := color_eq_weak cr hs hc (k := k) (v := v)
+    (List.getElem?_eq_getElem (by omega)) (List.getElem?_eq_getElem hk)
+    (List.getElem?_eq_getElem (by omega)) (List.getElem?_eq_getElem (by omega)) hav hvb
+  have hab : cr.domain[k] ≤ cr.domain[k + 1] := le_trans (le_of_lt hav) hvb
+  have f0 := factor_nonneg hab (le_of_lt hav)
+  have f1 := factor_le_one hab hvb
+  refine ⟨_, h, rfl, ?_⟩
+  simp only [blendRGB]
+  exact ⟨(blend_between _ _ f0 f1).1, (blend_between _ _ f0 f1).2, (blend_between _ _ f0 f1).1,
+    (blend_between _ _ f0 f1).2, (blend_between _ _ f0 f1).1, (blend_between _ _ f0 f1).2⟩
+
+/-- Monotone movement on weakly increasing domains, for `v ≤ w` in the same `(d k, d (k+1)]`. -/
+theorem C15_monotone_weak (cr : ColorRange) (hs : cr.domain.Pairwise (· ≤ ·))
+    (hc : cr.continuous = true) (hlen : cr.domain.length ≤ cr.colors.length)
+    (k : Nat) (hk : k + 1 < cr.domain.length) (v w : Rat)
+    (hav : cr.domain[k] < v) (hvw : v ≤ w) (hwb : w ≤ cr.domain[k + 1]) :
+    ∃ c c', cr.color v = .ok c ∧ cr.color w = .ok c' ∧
+      (cr.colors[k].r ≤ cr.colors[k + 1].r → c.r ≤ c'.r) ∧
+      (cr.colors[k + 1].r ≤ cr.colors[k].r → c'.r ≤ c.r) ∧
+      (cr.colors[k].g ≤ cr.colors[k + 1].g → c.g ≤ c'.g) ∧
+      (cr.colors[k + 1].g ≤ cr.colors[k].g → c'.g ≤ c.g) ∧
+      (cr.colors[k].b ≤ cr.colors[k + 1].b → c.b ≤ c'.b) ∧
+      (cr.colors[k + 1].b ≤ cr.colors[k].b → c'.b ≤ c.b) := by
+  have hv := color_eq_weak cr hs hc (k := k) (v := v)
+    (List.getElem?_eq_getElem (by omega)) (List.getElem?_eq_getElem hk)
+    (List.getElem?_eq_getElem (by omega)) (List.getElem?_eq_getElem (by omega)) hav (le_trans hvw hwb)
+  have hw := color_eq_weak cr hs hc (k := k) (v := w)
+    (List.getElem?_eq_getElem (by omega)) (List.getElem?_eq_getElem hk)
+    (List.getElem?_eq_getElem (by omega)) (List.getElem?_eq_getElem (by omega))
+    (lt_of_lt_of_le hav hvw) hwb
+  have hab : cr.domain[k] ≤ cr.domain[k + 1] := le_trans (le_of_lt hav) (le_trans hvw hwb)
+  have hf := factor_mono hab hvw
+  refine ⟨_, _, hv, hw, ?_⟩
+  simp only [blendRGB]
+  exact ⟨blend_mono_up hf, blend_mono_down hf, blend_mono_up hf, blend_mono_down hf,
+    blend_mono_up hf, blend_mono_down hf⟩
+
+/-- Stop exactness with duplicated stops: the value of stop `k` gets colour `k` whenever stop `k` is
+    the *first* of its equals (it is the first stop, or its predecessor is strictly smaller).  So a
+    value shared by several stops gets the colour of the first of them: the first-match search
+    stops in the interval that *ends* there (factor 1), never in the zero-width interval. -/
+theorem C15_stop_first_of_equals (cr : ColorRange) (hs : cr.domain.Pairwise (· ≤ ·))
+    (hc : cr.continuous = true) (h2 : 2 ≤ cr.domain.length)
+    (hlen : cr.domain.length ≤ cr.colors.length) (k : Nat) (hk : k < cr.domain.length)
+    (hfirst : k = 0 ∨ ∃ h : k - 1 < cr.domain.length, cr.domain[k - 1] < cr.domain[k]) :
+    cr.color cr.domain[k] = .ok cr.colors[k] := by
+  rcases Nat.eq_zero_or_pos k with rfl | hpos
+  · obtain ⟨d0, d1, h0, h1, h01, hfind, hl, hle⟩ := color_first_stop cr hs h2
+    have e0 : cr.domain[0] = d0 := by
+      have := List.getElem?_eq_getElem (l := cr.domain) (i := 0) (by omega)
+      rw [h0] at this; injection this with h; exact h.symm
+    have hc0 : cr.colors[0]? = some cr.colors[0] := List.getElem?_eq_getElem (by omega)
+    have hc1 : cr.colors[1]? = some cr.colors[1] := List.getElem?_eq_getElem (by omega)
+    rw [e0]
+    unfold ColorRange.color
+    simp only [h0, hl]
+    rw [if_neg (lt_irrefl _), if_neg (by intro h; linarith), hfind]
+    simp only [hc, if_true, h0, h1, hc0, hc1, Nat.zero_add]
+    rw [factor_lo, blendRGB_zero]
+  · rcases hfirst with h | ⟨hj, hlt⟩
+    · omega
+    · obtain ⟨j, rfl⟩ : ∃ j, k = j + 1 := ⟨k - 1, by omega⟩
+      simp only [Nat.add_sub_cancel] at hj hlt
+      have h := color_eq_weak cr hs hc (k := j) (v := cr.domain[j + 1])
+        (List.getElem?_eq_getElem hj) (List.getElem?_eq_getElem hk)
+        (List.getElem?_eq_getElem (by omega)) (List.getElem?_eq_getElem (by omega))
+        hlt (le_refl _)
+      rw [h, factor_hi hlt, blendRGB_one]
+
+/-- … and the later ones of a group of equal stops are *not* returned at the shared value: with
+    stops `[0, 5, 5, 10]` the value 5 gets colour 1, not colour 2 (colour 2 is approached from
+    above: the blend jumps across the zero-width interval). -/
+theorem C15_duplicate_stop_counterexample :
+    let cr : ColorRange := ⟨[⟨0, 0, 0⟩, ⟨100, 0, 0⟩, ⟨200, 0, 0⟩, ⟨250, 0, 0⟩], [0, 5, 5, 10], true⟩
+    cr.domain.Pairwise (· ≤ ·) ∧ cr.color 5 = .ok ⟨100, 0, 0⟩ ∧ cr.color 5 ≠ .ok ⟨200, 0, 0⟩ ∧
+    cr.color (5 + 1 / 10) = .ok ⟨201, 0, 0⟩ := by
   decide +kernel
+
+/-- Segmented ranges on weakly increasing domains: a value in `(d k, d (k+1)]` gets `colors[k+1]`;
+    the first stop itself gets `colors[1]` (the first interval is closed on the left). -/
+theorem C15_segmented_weak (cr : ColorRange) (hs : cr.domain.Pairwise (· ≤ ·))
+    (hc : cr.continuous = false) (hlen : cr.domain.length < cr.colors.length)
+    (k : Nat) (hk : k + 1 < cr.domain.length) :
+    (∀ v, cr.domain[k] < v → v ≤ cr.domain[k + 1] → cr.color v = .ok cr.colors[k + 1]) ∧
+    cr.color cr.domain[0] = .ok cr.colors[1] := by
+  refine ⟨fun v hav hvb => color_seg_weak cr hs hc (k := k)
+    (List.getElem?_eq_getElem (by omega)) (List.getElem?_eq_getElem hk)
+    (List.getElem?_eq_getElem (by omega)) hav hvb, ?_⟩
+  obtain ⟨d0, d1, h0, h1, h01, hfind, hl, hle⟩ := color_first_stop cr hs (by omega)
+  have e0 : cr.domain[0] = d0 := by
+    have := List.getElem?_eq_getElem (l := cr.domain) (i := 0) (by omega)
+    rw [h0] at this; injection this with h; exact h.symm
+  have hc1 : cr.colors[1]? = some cr.colors[1] := List.getElem?_eq_getElem (by omega)
+  rw [e0]
+  unfold ColorRange.color
+  simp only [h0, hl]
+  rw [if_neg (lt_irrefl _), if_neg (by intro h; linarith), hfind]
+  simp [hc, getE, hc1]
+
+/-- Continuous range with fewer stops than colours (accepted by the setter when the domain has not
+    exactly 2 values): inside the domain only the first `len(domain)` colours are used (the theorems
+    above), the last stop gets colour `len(domain) - 1`, but every value above it jumps to the
+    *last colour of the list* — the clamp reads `colors[-1]`, not the colour of the last stop. -/
+theorem C15_fewer_stops (cr : ColorRange) (hs : cr.domain.Pairwise (· < ·))
+    (hc : cr.continuous = true) (h2 : 2 ≤ cr.domain.length)
+    (hlen : cr.domain.length < cr.colors.length) :
+    cr.color cr.domain[cr.domain.length - 1] = .ok cr.colors[cr.domain.length - 1] ∧
+    ∀ v, cr.domain[cr.domain.length - 1] < v → cr.color v = .ok cr.colors[cr.colors.length - 1] := by
+  refine ⟨C15_stop_exact cr hs hc h2 (by omega) _ (by omega), ?_⟩
+  intro v hv
+  have hd : cr.domain ≠ [] := by intro h; simp [h] at h2
+  have hcol : cr.colors ≠ [] := by intro h; simp [h] at hlen
+  have hlast : cr.domain.getLast hd = cr.domain[cr.domain.length - 1] := List.getLast_eq_getElem _
+  have hhead : cr.domain.head hd = cr.domain[0] := List.head_eq_getElem _
+  have hle : cr.domain[0] ≤ cr.domain[cr.domain.length - 1] :=
+    strict_le_of_le hs (List.getElem?_eq_getElem (by omega)) (List.getElem?_eq_getElem (by omega))
+      (Nat.zero_le _)
+  have := C15_clamp_high cr hd hcol v (by rw [hhead, hlast]; exact hle) (by rw [hlast]; exact hv)
+  rw [this, List.getLast_eq_getElem]
 
 /-! Non-vacuity: the docstring range of color.py satisfies the hypotheses and the conclusions are
     the documented colours. -/
@@ -518,6 +677,59 @@ theorem C15_wf_cat (dom : List Rat) (cols : List RGB) (names : Option (List Stri
       rw [hcount']
       simp at h3
       exact h3
+
+/-- Label content, plain numeric legends (no ordinal dictionary): label `i` is the `%.nf` form of
+    segment number `i` at `decimal_count` digits; with `include_larger_smaller` the first label gets
+    a leading `<` and the last a leading `>` (a one-label legend gets both, `><…`: the code applies
+    them one after the other).  Token level: the formatted number is a sign and a magnitude in
+    units of `10^-n`, and it denotes exactly `round(number, n)` (half to even) — the rendering of
+    the token into characters is tied by correspondence (`fmt` op) only. -/
+theorem C15_segment_text_numeric (l : Legend) (hplain : l.par.cat = none)
+    (hord : l.par.ordinal = none) :
+    (l.par.includeLS = false →
+      l.segmentText = l.segmentNumbers.map (fmtFixed · l.par.decimalCount)) ∧
+    (l.par.includeLS = true →
+      l.segmentText = markEnds (l.segmentNumbers.map (fmtFixed · l.par.decimalCount))) ∧
+    (∀ x n, fmtFixed x n = renderToken (fmtToken x n) n ∧
+      tokenValue (fmtToken x n) n = Py.roundN x n) ∧
+    (∀ (x y : String) (mid : List String),
+      markEnds (x :: (mid ++ [y])) = ("<" ++ x) :: (mid ++ [">" ++ y])) ∧
+    (∀ x : String, markEnds [x] = [">" ++ ("<" ++ x)]) := by
+  refine ⟨?_, ?_, fun x n => ⟨rfl, tokenValue_fmtToken x n⟩, markEnds_ends, markEnds_single⟩
+  · intro h; simp [Legend.segmentText, hplain, hord, h]
+  · intro h; simp [Legend.segmentText, hplain, hord, h]
+
+/-- Label content, ordinal dictionaries: label `i` is the text mapped to segment number `i` when
+    that number equals an integer key, and the empty string otherwise. -/
+theorem C15_segment_text_ordinal (l : Legend) (hplain : l.par.cat = none)
+    (d : List (Int × String)) (hord : l.par.ordinal = some d) :
+    l.segmentText = l.segmentNumbers.map (ordLookup d) ∧
+    (∀ x : Rat, (∀ kv ∈ d, (kv.1 : Rat) ≠ x) → ordLookup d x = "") ∧
+    (∀ (x : Rat) (k : Int) (t : String), (k, t) ∈ d → (k : Rat) = x →
+      (∀ kv ∈ d, kv.1 = k → kv.2 = t) → ordLookup d x = t) := by
+  refine ⟨by simp [Legend.segmentText, hplain, hord], ordLookup_none d, ordLookup_some d⟩
+
+/-- graphic.py: a `GraphicContainer` (without data type) colours its values exactly as the `Legend`
+    built from the same values and parameters does — the container only fills in default 3D
+    dimensions, which no colour depends on; numbers, segment colours and labels agree as well. -/
+theorem C15_graphic_value_colors (vals : List Rat) (p : Par) (x0 y0 x1 y1 : Rat) (g : Graphic)
+    (hg : Graphic.make vals p x0 y0 x1 y1 = .ok g) :
+    ∃ l, Legend.make vals p = .ok l ∧
+      g.valueColors = l.valueColors ∧ g.legend.colorRange = l.colorRange ∧
+      g.legend.segmentNumbers = l.segmentNumbers ∧ g.legend.segmentColors = l.segmentColors ∧
+      g.legend.segmentText = l.segmentText ∧ g.legend.segCount = l.segCount ∧
+      g.legend.values = l.values := by
+  unfold Graphic.make at hg
+  cases hl : Legend.make vals p with
+  | error e => simp [hl] at hg
+  | ok l =>
+    simp only [hl] at hg
+    by_cases hh : graphicSegH p l.segCount x0 y0 x1 y1 ≤ 0
+    · rw [if_pos hh] at hg; simp at hg
+    · rw [if_neg hh] at hg
+      injection hg with hg
+      subst hg
+      exact ⟨l, rfl, rfl, rfl, rfl, rfl, rfl, rfl, rfl⟩
 
 /-! Non-vacuity: the docstring legends of legend.py. -/
 
